@@ -491,7 +491,9 @@ func (m *Mast) Insert(ctx context.Context, key, value interface{}) error {
 	if err != nil {
 		return fmt.Errorf("save new root: %w", err)
 	}
-	for m.size >= m.growAfterSize {
+	// the entry is in the tree from here on: count it before anything else can fail
+	m.size++
+	for m.size > m.growAfterSize {
 		canGrow, err := options.path[0].node.canGrow(m.height, m.keyLayer, m.branchFactor)
 		if err != nil {
 			return fmt.Errorf("canGrow: %w", err)
@@ -508,7 +510,6 @@ func (m *Mast) Insert(ctx context.Context, key, value interface{}) error {
 			return fmt.Errorf("grow: %w", err)
 		}
 	}
-	m.size++
 	return nil
 }
 
